@@ -267,6 +267,7 @@ type GreaseRecipient struct {
 	Tag     int
 	ArgLen  int // >0: an extra argument of this many characters
 	Append  int // >0: Wrap appends this many bytes to the file-key slice it received
+	NArgs   int // >0: this many further short arguments
 }
 
 // AppendSink keeps the appended slice alive.
@@ -282,6 +283,9 @@ func (g *GreaseRecipient) Stanzas() []*age.Stanza {
 		st := &age.Stanza{Type: fmt.Sprintf("grease-%d-%d", g.Tag, i), Args: []string{"a", fmt.Sprint(i)}, Body: body}
 		if g.ArgLen > 0 {
 			st.Args = append(st.Args, strings.Repeat("Z", g.ArgLen))
+		}
+		for j := 0; j < g.NArgs; j++ {
+			st.Args = append(st.Args, fmt.Sprintf("k%d", j))
 		}
 		out = append(out, st)
 	}
